@@ -7,6 +7,7 @@
    Full:     C16_gauss_subset_order, C16_gauss_unsorted_rejected, C16_gauss_displacement_order,
              C16_gauss_photon, C16_gauss_quad_photon, C16_fock_prob_all_probs, C16_fock_trace,
              C16_fock_marginals, C16_fock_mean_photon_marginal, C16_fock_reduced_labels_single,
+             C16_bosonic_quad_total_variance,
              C16_gauss_parity_subset, C16_gauss_parity_order (model of the code after fix 5603fbf).
    Partial:  the statements kept as `Definition ..._statement` below are not proved in Coq; they
              are validated on every run by exact correspondence (einsum subscripts captured from
@@ -129,6 +130,26 @@ Theorem C16_fock_reduced_labels_single :
 Proof. exact red_labels_single. Qed.
 Print Assumptions C16_fock_reduced_labels_single.
 
+(* BaseBosonicState.quad_expectation on a weighted sum of Gaussians (any number of components and modes, any
+   ring of scalars — complex weights/means included): the mean is the weighted mean of the component means and,
+   when the weights sum to one, the variance is sum_i w_i (v_i + (m_i - mean)^2): it sees how far apart the
+   component means are. *)
+Theorem C16_bosonic_quad_total_variance :
+  forall (K : Type) (k0 k1 : K) (kadd kmul ksub : K -> K -> K) (kopp : K -> K),
+    ring_theory k0 k1 kadd kmul ksub kopp eq ->
+    forall (c s : K) (mode : nat) (comps : list (bcomp K)),
+      bsum K k0 kadd (map (bweight K) comps) = k1 ->
+      let mean := fst (bosonic_quad K k0 kadd kmul ksub c s mode comps) in
+      mean = bsum K k0 kadd (map (fun cp => kmul (bweight K cp) (b_mphi K k0 kadd kmul c s mode cp)) comps) /\
+      snd (bosonic_quad K k0 kadd kmul ksub c s mode comps)
+      = bsum K k0 kadd (map (fun cp => kmul (bweight K cp) (kadd (b_vphi K k0 kadd kmul c s mode cp)
+            (kmul (ksub (b_mphi K k0 kadd kmul c s mode cp) mean) (ksub (b_mphi K k0 kadd kmul c s mode cp) mean)))) comps).
+Proof.
+  intros K k0 k1 kadd kmul ksub kopp R c s mode comps Hw mean. split; [reflexivity|].
+  exact (bosonic_quad_total_variance K k0 k1 kadd kmul ksub kopp R c s mode comps Hw).
+Qed.
+Print Assumptions C16_bosonic_quad_total_variance.
+
 (* BaseGaussianState.parity_expectation(modes) (code after fix 5603fbf): for every ascending,
    duplicate-free, in-range list it is the Gaussian parity formula on the reduced state of exactly
    those modes, for every register size; and listing the modes in another order changes nothing. *)
@@ -156,6 +177,8 @@ Example C16_unit_circle_inhabited : Qeq ((3 # 5) * (3 # 5) + (4 # 5) * (4 # 5))%
 Proof. reflexivity. Qed.
 Example C16_reduced_ok_inhabited :
   reduced_gaussian nat (fun i => i) (fun i j => 10 * i + j) 3 [0; 2] = Ok ([0; 2; 3; 5], [[0; 2; 3; 5]; [20; 22; 23; 25]; [30; 32; 33; 35]; [50; 52; 53; 55]]).
+Proof. reflexivity. Qed.
+Example C16_bosonic_weights_inhabited : bsum nat 0 Nat.add (map (bweight nat) [(1, [3; 4], [[1; 0]; [0; 1]])]) = 1.
 Proof. reflexivity. Qed.
 Example C16_parity_hyp_inhabited : sorted_lt [0; 2] = true /\ sort_nat [2; 0] = sort_nat [0; 2].
 Proof. split; reflexivity. Qed.
